@@ -1029,15 +1029,12 @@ qb_log_custom_close(int32_t t)
 
 	target = qb_log_target_get(t);
 
-	/* the logging thread must not be inside this target's logger meanwhile */
-	qb_log_thread_pause(target);
 	if (target->close) {
 		qb_atomic_int_set(&in_logger, QB_TRUE);
 		target->close(t);
 		qb_atomic_int_set(&in_logger, QB_FALSE);
 	}
 	qb_log_target_free(target);
-	qb_log_thread_resume(target);
 }
 
 static int32_t
@@ -1148,7 +1145,7 @@ qb_log_ctl2(int32_t t, enum qb_log_conf c, qb_log_ctl2_arg_t arg_not4directuse)
 		break;
 	case QB_LOG_CONF_MAX_LINE_LEN:
 		/* arbitrary limit, but you'd be insane to go further */
-		if (arg_i32 > QB_LOG_ABSOLUTE_MAX_LEN) {
+		if (arg_i32 <= 0 || arg_i32 > QB_LOG_ABSOLUTE_MAX_LEN) {
 			rc = -EINVAL;
 		} else {
 			conf[t].max_line_length = arg_i32;
